@@ -287,6 +287,25 @@ pub fn check_case(id: &str, case: &Json, obs: &mut Obs) -> Verdict {
     }
     let got = lib_eval(&doc, &map, expr, &ns);
     if values_agree(expected, &got, &tree) {
+        // the raw view coincides with the merged one when the text has no reference and no CDATA section
+        if !text.contains('&') && !text.contains("<![CDATA[") {
+            if let Ok((rest, raw)) = xml_dom::XmlDocument::from_raw(text) {
+                if rest.is_empty() {
+                    if let Ok(rmap) = xmap::align(&raw, &tree) {
+                        obs.label("raw-view-also");
+                        let got_raw = lib_eval(&raw, &rmap, expr, &ns);
+                        if !values_agree(expected, &got_raw, &tree) {
+                            let key = format!("{}.raw-view-differs.{}", id.to_lowercase(), got_raw["t"].as_str().unwrap_or("?"));
+                            if skip_known(id, &key) {
+                                obs.known_hits.push(key);
+                                return Verdict::Pass;
+                            }
+                            return Verdict::fail(key, format!("{} on {:?} in the raw view: XPath 1.0 says {}, the library says {} (the merged view is right)", expr, text, crate::oracle::canon::short(expected), crate::oracle::canon::short(&got_raw)));
+                        }
+                    }
+                }
+            }
+        }
         return Verdict::Pass;
     }
     if feats0.contains(&"axis:namespace") && !case["_witness"].is_null() {
@@ -336,7 +355,7 @@ impl Property for C05 {
          typed expression ASTs of depth <= 5 (all 13 axes, every node-test form, positional/boolean/nested-path predicates, unions, filter expressions, all operators, every \
          core function but id()) generated from proptest gene vectors and spelled with random surface choices; caller prefix bindings differ from the document's prefixes. \
          Oracle: the independent reference evaluator vp-xref (written from the XPath 1.0 text, 6M-case differential campaign against libxml2) evaluates the AST on the reference \
-         tree; the library evaluates the spelled string on the parsed text in the merged-text view; node-sets are compared as index vectors through a parallel walk of both \
+         tree; the library evaluates the spelled string on the parsed text in the merged-text view, and also in the raw view when the text has no reference and no CDATA section (where the two views coincide); node-sets are compared as index vectors through a parallel walk of both \
          trees (order and duplicates matter), numbers bit-exactly (NaN = NaN), strings and booleans exactly. Non-trivial = the expression has >= 2 steps or a predicate or an \
          operator and the reference value is not the trivial empty/false/NaN/\"\"; distinct by (document, expression)."
             .into()
